@@ -181,8 +181,8 @@ class Pending(InstructionGenerator):
 class BenignQueue(InstructionGenerator):
     """C18 workload: departures of charging vehicles and abandonment of the queue, nothing invalid."""
 
-    def __init__(self, seed: int, p_leave: float = 0.05, p_abandon: float = 0.02, p_resend: float = 0.0, p_topup: float = 0.0, p_send: float = 0.0):
-        self.seed, self.p_leave, self.p_abandon, self.p_resend, self.p_topup, self.p_send = seed, p_leave, p_abandon, p_resend, p_topup, p_send
+    def __init__(self, seed: int, p_leave: float = 0.05, p_abandon: float = 0.02, p_resend: float = 0.0, p_topup: float = 0.0, p_send: float = 0.0, p_switch: float = 0.0):
+        self.seed, self.p_leave, self.p_abandon, self.p_resend, self.p_topup, self.p_send, self.p_switch = seed, p_leave, p_abandon, p_resend, p_topup, p_send, p_switch
 
     @property
     def name(self) -> str:
@@ -198,6 +198,13 @@ class BenignQueue(InstructionGenerator):
                 out.append(IdleInstruction(v.id))
             elif n == "ChargeQueueing" and x < self.p_abandon:
                 out.append(IdleInstruction(v.id))
+            elif n == "ChargeQueueing" and self.p_switch and x < self.p_abandon + self.p_switch:
+                # "try the other kind of plug there": the vehicle gives up its place and goes to the station's other usable plug type
+                st = sim.stations.get(v.vehicle_state.station_id)
+                mech = env.mechatronics.get(v.mechatronics_id)
+                other = [c for c in sorted(st.state) if c != v.vehicle_state.charger_id and mech is not None and mech.valid_charger(st.state[c].charger)] if st is not None else []
+                if other:
+                    out.append(DispatchStationInstruction(v.id, st.id, other[0]))
             elif n == "ChargeQueueing" and x < self.p_abandon + self.p_resend:
                 # a stateless controller repeating "go and charge there" to a vehicle that is already waiting there
                 # (the built-in off-shift human driver logic does the same every step)
